@@ -317,6 +317,7 @@ class Trace:
         self.states = []       # state at the end of tick i
         self.cands = []        # per tick: {tag: [values shown to the interpreter in that tick]}
         self.raised = None
+        self.endblock_exec = []      # (tick, line id) of every execution of an End block / End blocks line
         self.runlog_failed = False   # get_runlog() raised its own AssertionError (subject of C15): no further requests
         self.req_stats = {"accepted": 0, "rejected": 0, "no-candidate": 0}
 
@@ -395,6 +396,15 @@ def run(case) -> Trace:
                 tr.raised = o.raised
                 break
         tr.events = list(h.events)
+        # ticks at which the End block / End blocks lines of the method executed (run-time records: the source of the run
+        # log); used to tell which thread ended a block
+        end_ids = {l.id for l in tr.lines if l.kind in ("endblock", "endblocks")}
+        for rec in h.engine.tracking.runtimeinfo.records:
+            if rec.node_id in end_ids:
+                for stt in rec.states:
+                    if str(stt.state_name) == "started":
+                        tr.endblock_exec.append((int(stt.state_tick), rec.node_id))
+        tr.endblock_exec.sort()
     finally:
         h.close()
     return tr
